@@ -330,3 +330,108 @@ theorem planner_outputs_good (s : Shard)
     exact List.pairwise_map.mp this
 
 end Snel.Shard
+
+namespace Snel.Shard
+
+/-! ## Plans only merge what the index lists for their level and type -/
+
+theorem mem_chunksOf {k : Nat} : ∀ (fuel : Nat) (xs c : List Nat) (x : Nat),
+    c ∈ chunksOf k fuel xs → x ∈ c → x ∈ xs := by
+  intro fuel
+  induction fuel with
+  | zero => intro xs c x hc; simp [chunksOf] at hc
+  | succ fuel ih =>
+    intro xs c x hc hx
+    cases xs with
+    | nil => simp [chunksOf] at hc
+    | cons a as =>
+      unfold chunksOf at hc
+      by_cases hk : k = 0
+      · simp [hk] at hc
+      · simp only [hk, if_false, List.mem_cons] at hc
+        rcases hc with rfl | hc
+        · exact List.mem_of_mem_take hx
+        · exact List.mem_of_mem_drop (ih _ c x hc hx)
+
+/-- Every input of every plan is an index entry of the plan's level that lists the plan's type. -/
+def PlanFrom (index : List (Nat × List Nat)) (a : PlanAcc) : Prop :=
+  ∀ p ∈ a.plans, ∀ l ∈ p.inputs, ∃ ent ∈ index, ent.1 = l ∧ l / levelSpan = p.level ∧ p.ty ∈ ent.2
+
+theorem planFrom_push {index : List (Nat × List Nat)} {a : PlanAcc} (h : PlanFrom index a)
+    (labels : List Nat) (lv level ty : Nat) (inputs : List Nat)
+    (hin : ∀ l ∈ inputs, ∃ ent ∈ index, ent.1 = l ∧ l / levelSpan = level ∧ ty ∈ ent.2) :
+    PlanFrom index { (a.alloc labels lv).2 with
+      plans := (a.alloc labels lv).2.plans ++ [⟨level, ty, inputs, (a.alloc labels lv).1⟩] } := by
+  intro p hp
+  simp only [PlanAcc.alloc, List.mem_append, List.mem_singleton] at hp
+  rcases hp with hp | rfl
+  · exact h p hp
+  · exact hin
+
+theorem chunks_fold_from {index : List (Nat × List Nat)} (k : Nat) (labels : List Nat) (level ty : Nat)
+    (cs : List (List Nat)) :
+    (∀ c ∈ cs, ∀ l ∈ c, ∃ ent ∈ index, ent.1 = l ∧ l / levelSpan = level ∧ ty ∈ ent.2) →
+    ∀ (a : PlanAcc), PlanFrom index a →
+    PlanFrom index (cs.foldl (fun a chunk =>
+      if chunk.length < k then a
+      else
+        let (out, a) := a.alloc labels (level + 1)
+        { a with plans := a.plans ++ [⟨level, ty, chunk, out⟩] }) a) := by
+  induction cs with
+  | nil => intro _ a h; simpa using h
+  | cons c cs ih =>
+    intro hchunks a h
+    simp only [List.foldl_cons]
+    apply ih (fun c' hc' => hchunks c' (by simp [hc']))
+    split
+    · exact h
+    · exact planFrom_push h labels (level + 1) level ty c (hchunks c (by simp))
+
+theorem planUid_from {index : List (Nat × List Nat)} (k thr : Nat) (labels : List Nat) (level ty : Nat)
+    (segsOfUid : List Nat)
+    (hsegs : ∀ l ∈ segsOfUid, ∃ ent ∈ index, ent.1 = l ∧ l / levelSpan = level ∧ ty ∈ ent.2)
+    {a : PlanAcc} (h : PlanFrom index a) : PlanFrom index (planUid k thr labels level ty segsOfUid a) := by
+  have hsorted : ∀ l ∈ sortNat segsOfUid, ∃ ent ∈ index, ent.1 = l ∧ l / levelSpan = level ∧ ty ∈ ent.2 :=
+    fun l hl => hsegs l (mem_sortNat.mp hl)
+  unfold planUid
+  simp only
+  split
+  · exact h
+  · split
+    · exact planFrom_push h labels (level + 1) level ty _ hsorted
+    · exact chunks_fold_from k labels level ty _
+        (fun c hc l hl => hsorted l (mem_chunksOf _ _ c l hc hl)) a h
+
+theorem planAcc_from (k : Nat) (index : List (Nat × List Nat)) : PlanFrom index (planAcc k index) := by
+  unfold planAcc
+  simp only
+  generalize List.range _ = lvs
+  have : ∀ (a : PlanAcc), PlanFrom index a →
+      PlanFrom index (lvs.foldl (fun a level =>
+        (allTypes index).foldl (fun a ty =>
+          let segsOfUid := (index.filter (fun e => e.1 / levelSpan == level && e.2.contains ty)).map (·.1)
+          if segsOfUid.isEmpty then a else planUid k
+            (max ((k * Snel.Gen.C05.leftoverNum) / Snel.Gen.C05.leftoverDen) Snel.Gen.C05.leftoverMin)
+            (index.map (·.1)) level ty segsOfUid a) a) a) := by
+    induction lvs with
+    | nil => intro a h; simpa using h
+    | cons lv lvs ih =>
+      intro a h
+      simp only [List.foldl_cons]
+      apply ih
+      generalize allTypes index = tys
+      induction tys generalizing a with
+      | nil => simpa using h
+      | cons t ts iht =>
+        simp only [List.foldl_cons]
+        apply iht
+        split
+        · exact h
+        · apply planUid_from _ _ _ _ _ _ _ h
+          intro l hl
+          simp only [List.mem_map, List.mem_filter, Bool.and_eq_true, beq_iff_eq, List.contains_iff_mem] at hl
+          obtain ⟨ent, ⟨hent, hlv, hty⟩, rfl⟩ := hl
+          exact ⟨ent, hent, rfl, hlv, hty⟩
+  exact this _ (by intro p hp; simp at hp)
+
+end Snel.Shard
